@@ -8,7 +8,9 @@ from props.c18 import H, decode_cfg
 
 CATS = ["IMM", "CTOR", "TONL", "PKGO", "IMPL"]
 CODES = ["IMM01", "IMM02", "IMM03", "IMM04", "CTOR01", "CTOR02", "CTOR03", "TONL01", "TONL02", "TONL03", "PKGO01", "PKGO02", "PKGO03", "IMPL01", "IMPL02", "IMPL03"]
-JUNK = ["IM", "IMM0", "X9", "IMM011", "CTOR0", "PKG", "A", "ALLL", "TONL1", "no imm", "not all", "IMM 01", "CTOR-01"]
+JUNK = ["IM", "IMM0", "X9", "IMM011", "CTOR0", "PKG", "A", "ALLL", "TONL1", "no imm", "not all", "IMM 01", "CTOR-01",
+        # U+212A KELVIN SIGN and U+017F LONG S are equal to K / S only under Unicode case FOLDING: as tokens they are junk
+        "P\u212aGO", "P\u212aGO01", "p\u212ago03", "\u017fX9"]
 
 
 def tokens_for(code):
@@ -147,7 +149,7 @@ def run(ctx):
     rep.cov["baseline_diagnostics"] = len(baseline)
     rep.cov["codes_in_baseline"] = codes_seen
     rep.cov["samples"] = [{"value": jobs[i][1], "by_env": jobs[i][2], "parsed": mcfg[i][2]} for i in (0, 7, 30, len(jobs) - 2)]
-    rep.assumptions = ["ASCII tokens", "the unrestricted run is the reference (metamorphic) and the model is the second reference"]
+    rep.assumptions = ["ASCII tokens, plus four junk tokens with the non-ASCII letters that Unicode case folding equates with K and S", "the unrestricted run is the reference (metamorphic) and the model is the second reference"]
     return rep.finish()
 
 
